@@ -508,7 +508,7 @@ fn gen_fm_doc(r: &mut Rng, corpus: &Corpus) -> (String, String) {
             10 => "<div>".into(),
             11 => "é: ü".into(),
             12 => format!("{}{}", d, d),
-            _ => r.ps(&["a: b", "title: \"q\"", "tags: [x, y]", "k: |", "  v", "path: C:\\temp\\new", "re: \\d+\\.\\d+ \\* \\_x\\_", "e: &amp; &#35; *not* _md_ `c` <b>", "u: http://a.b/c?d=e www.x.y a@b.c", "esc: \\[x\\] \\# \\> \\- \\!"]).to_string(),
+            _ => r.ps(&["a: b", "title: \"q\"", "tags: [x, y]", "k: |", "  v", "nul: a\u{0}b", "\u{0}", "path: C:\\temp\\new", "re: \\d+\\.\\d+ \\* \\_x\\_", "e: &amp; &#35; *not* _md_ `c` <b>", "u: http://a.b/c?d=e www.x.y a@b.c", "esc: \\[x\\] \\# \\> \\- \\!"]).to_string(),
         };
         s.push_str(&l);
         s.push_str(eol(r));
